@@ -345,7 +345,8 @@ func CheckText(c TextCase) (v vcase.Verdict) {
 		}
 	})
 	if hung {
-		v.Failf("parsing %q as %s did not return within 20s", text, c.Kind)
+		v.Poisoned = true
+		v.Failf("parsing %q as %s did not return (20 s of CPU time)", text, c.Kind)
 		return
 	}
 	if pmsg != "" {
